@@ -410,7 +410,7 @@ type walOp struct {
 }
 
 func c07Traced(c *fw.Case, j int) {
-	work := c.Dir
+	work := realDir(c.Dir) // (the traced process sees real paths: a case directory reached through a link is resolved once)
 	dir := filepath.Join(work, "wal")
 	_ = os.MkdirAll(dir, 0755)
 	ctl := filepath.Join(work, "ctl")
